@@ -347,10 +347,10 @@ func strGmatchIter(L *LState) int {
 	str := md.str
 	matches := md.matches
 	idx := md.pos
-	md.pos += 1
-	if idx == len(matches) {
+	if idx >= len(matches) {
 		return 0
 	}
+	md.pos += 1
 	L.Push(L.Get(1))
 	match := matches[idx]
 	if match.CaptureLength() == 2 {
